@@ -25,8 +25,9 @@ def enc(x, TMAX, TMIN):
     return int(x) if x == int(x) else int(round(x * 1024)) + 7 * INF     # off-grid marker: never equals a grid value
 
 
-def run_kernel(lut, wins, dls, cap, fn=None):
-    """wins: list of images (grid ints); dls: per input [[d00,d01],[d10,d11]].  One call of the real kernel."""
+def run_kernel(lut, wins, dls, cap, fn=None, unit=1.0):
+    """wins: list of images (grid ints); dls: per input [[d00,d01],[d10,d11]].  One call of the real kernel.
+    unit: a power of two; input times and delays are multiplied by it, output times divided by it (both exact)."""
     from kyupy import wave_sim
     from kyupy.wave_sim import TMAX, TMIN, TMAX_OVL
     fn = fn or wave_sim.wave_eval_cpu
@@ -37,10 +38,10 @@ def run_kernel(lut, wins, dls, cap, fn=None):
     c[4 * CAPI:4 * CAPI + cap, 0] = -12345.0      # garbage in the output area
     for i, im in enumerate(wins):
         for k, v in enumerate(im):
-            c[i * CAPI + k, 0] = dec.get(v, np.float32(v))
+            c[i * CAPI + k, 0] = dec[v] if v in dec else np.float32(v * unit)
     delays = np.zeros((1, 6, 2, 2), dtype=np.float32)
     for i, d in enumerate(dls):
-        delays[0, i] = d
+        delays[0, i] = np.array(d, dtype=np.float32) * np.float32(unit)
     idx = [i if i < len(wins) else 5 for i in range(4)]
     op = np.array([lut, 4] + idx + [-1, 0, 0], dtype=np.int32)
     rec = dict(lut=int(lut), win=[list(w) for w in wins], dl=[[[int(x) for x in r] for r in d] for d in dls], cap=int(cap), raised=False)
@@ -49,7 +50,7 @@ def run_kernel(lut, wins, dls, cap, fn=None):
         out = c[4 * CAPI:4 * CAPI + cap, 0]
         z = []
         for v in out:
-            z.append(enc(v, float(TMAX), float(TMIN)))
+            z.append(enc(v if (v >= TMAX or v <= TMIN) else float(v) / unit, float(TMAX), float(TMIN)))
             if v >= TMAX:
                 break
         rec.update(z=z, nr=int(nr), nf=int(nf))
@@ -108,13 +109,16 @@ def random_configs(rnd, n):
         yield lut, wins, dls, rnd.choice([4, 4, 8, 16]), poldep
 
 
-def with_motion(rnd, r, lut, wins, dls, cap):
+def with_motion(rnd, r, lut, wins, dls, cap, fixed=None):
     """C04: the same configuration shifted / scaled, through the real kernel again."""
     sd, sf = rnd.choice([1, 7, 64]), rnd.choice([2, 4])
+    sden = rnd.choice([1, 1, 2 ** 10, 2 ** 20, 2 ** 30])       # scaling DOWN by a power of two: times in units of 1/sden
+    if fixed:
+        sd, sf, sden = fixed
     mv = lambda w, f: [f(v) if -INF < v < INF else v for v in w]
     zs = run_kernel(lut, [mv(w, lambda v: v + sd) for w in wins], dls, cap)
-    zc = run_kernel(lut, [mv(w, lambda v: v * sf) for w in wins], [[[x * sf for x in row] for row in d] for d in dls], cap)
-    r.update(sd=sd, sf=sf, zs=[] if zs['raised'] else zs['z'], zc=[] if zc['raised'] else zc['z'])
+    zc = run_kernel(lut, [mv(w, lambda v: v * sf) for w in wins], [[[x * sf for x in row] for row in d] for d in dls], cap, unit=1.0 / sden)
+    r.update(sd=sd, sf=sf, sden=sden, zs=[] if zs['raised'] else zs['z'], zc=[] if zc['raised'] else zc['z'])
     return r
 
 
@@ -124,7 +128,7 @@ def records(ck, rnd, motion=False):
     # complete domain of the quick model config (polarity independent): 17 424 configurations
     for lut, wins, dls, cap in complete_domain([30583, 26214, 34952, 61166], 3, 2, [0, 1, 3], 4, False):
         r = run_kernel(lut, wins, dls, cap)
-        r.update(prim=names.get(lut, '?'), poldep=False, sd=0, sf=1, zs=[], zc=[])
+        r.update(prim=names.get(lut, '?'), poldep=False, sd=0, sf=1, sden=1, zs=[], zc=[])
         if motion:
             with_motion(rnd, r, lut, wins, dls, cap)
         recs.append(r)
@@ -132,12 +136,12 @@ def records(ck, rnd, motion=False):
     if ck.thorough:
         for lut, wins, dls, cap in complete_domain([30583, 26214], 3, 2, [0, 2], 4, True):
             r = run_kernel(lut, wins, dls, cap)
-            r.update(prim=names.get(lut, '?'), poldep=True, sd=0, sf=1, zs=[], zc=[])
+            r.update(prim=names.get(lut, '?'), poldep=True, sd=0, sf=1, sden=1, zs=[], zc=[])
             recs.append(r)
         ncomplete = len(recs)
     for lut, wins, dls, cap, poldep in random_configs(rnd, ck.pick(9000, 90000)):
         r = run_kernel(lut, wins, dls, cap)
-        r.update(prim=names.get(lut, '?'), poldep=poldep, sd=0, sf=1, zs=[], zc=[])
+        r.update(prim=names.get(lut, '?'), poldep=poldep, sd=0, sf=1, sden=1, zs=[], zc=[])
         if motion:
             with_motion(rnd, r, lut, wins, dls, cap)
         recs.append(r)
@@ -155,7 +159,7 @@ def judge(ck, recs, pids):
         x = recs[tid - 1]
         ck.violation('kernel:%s:%s' % (clause, gen.digest([x['lut'], x['win'], x['dl'], x['cap']])),
                      'kernel %s fails: lut=%d (%s) inputs=%s delays=%s cap=%d -> z=%s %s' % (clause, x['lut'], x['prim'], x['win'], x['dl'], x['cap'], x['z'], x.get('err', '')),
-                     dict(kind='kernel', input=dict(kernel=True, lut=x['lut'], win=x['win'], dl=x['dl'], cap=x['cap'], prim=x['prim'], poldep=x['poldep']), clause=clause))
+                     dict(kind='kernel', input=dict(kernel=True, lut=x['lut'], win=x['win'], dl=x['dl'], cap=x['cap'], prim=x['prim'], poldep=x['poldep'], motion=[x['sd'], x['sf'], x['sden']]), clause=clause))
 
 
 def run(ck, rnd, pids, design=True):
@@ -188,6 +192,6 @@ def run(ck, rnd, pids, design=True):
 
 def replay(ck, mt):
     r = run_kernel(mt['lut'], mt['win'], mt['dl'], mt['cap'])
-    r.update(prim=mt['prim'], poldep=mt['poldep'], sd=0, sf=1, zs=[], zc=[])
-    with_motion(__import__('random').Random(1), r, mt['lut'], mt['win'], mt['dl'], mt['cap'])
+    r.update(prim=mt['prim'], poldep=mt['poldep'], sd=0, sf=1, sden=1, zs=[], zc=[])
+    with_motion(__import__('random').Random(1), r, mt['lut'], mt['win'], mt['dl'], mt['cap'], fixed=mt.get('motion') if mt.get('motion', [0])[0] else None)
     judge(ck, [r], ('C03', 'C04', 'C05', 'C13'))
